@@ -46,7 +46,7 @@ def monitor_regen(run, where, inv, meta, hist, ii, rep):
 
 
 def gen(rng, **kw):
-    steps, invs, info = gen_history(rng, with_regen=True, **kw)
+    steps, invs, info = gen_history(rng, with_regen=("include" if rng.random() < 0.35 else True), with_pools=True, nmax=8, **kw)
     return steps, invs, info
 
 
